@@ -766,3 +766,54 @@ func probeArgOrder() string {
 	}
 	return "ok"
 }
+
+// C15 / C19: deadline and write_time belong to the connection: dropping ONE of its s3db tables
+// changes neither — the other tables keep working under the same (unexpired) deadline, and their
+// writes keep carrying the explicit write time
+func probeDropKeepsAttributes() string {
+	px := getProxy()
+	bucket := fmt.Sprintf("pdk%d", nextCounter())
+	if err := px.backend.CreateBucket(bucket); err != nil {
+		return "FAIL setup: " + err.Error()
+	}
+	db, err := sql.Open("sqlite3", ":memory:")
+	if err != nil {
+		return "FAIL " + err.Error()
+	}
+	defer db.Close()
+	db.SetMaxOpenConns(1)
+	ta, tb := fmt.Sprintf("pdk_a%d", nextCounter()), fmt.Sprintf("pdk_b%d", nextCounter())
+	steps := []string{
+		fmt.Sprintf("create virtual table %s using s3db(s3_bucket='%s', s3_endpoint='%s', s3_prefix='ta', columns='k primary key, v')", ta, bucket, px.url),
+		fmt.Sprintf("create virtual table %s using s3db(s3_bucket='%s', s3_endpoint='%s', s3_prefix='tb', columns='k primary key, v')", tb, bucket, px.url),
+		"update s3db_conn set deadline='2100-01-01 00:00:00', write_time='2020-01-01 00:00:00'",
+		"insert into " + ta + " values(1,'one')",
+		"drop table " + tb,
+		"insert into " + ta + " values(2,'two')",
+		"update " + ta + " set v='uno' where k=1",
+	}
+	for _, s := range steps {
+		if _, err := db.Exec(s); err != nil {
+			return "FAIL " + s + ": " + err.Error()
+		}
+	}
+	var n int
+	if err := db.QueryRow("select count(*) from " + ta).Scan(&n); err != nil || n != 2 {
+		return fmt.Sprintf("FAIL after dropping another table: %d rows, %v", n, err)
+	}
+	var dl, wt sql.NullString
+	if err := db.QueryRow("select deadline, write_time from s3db_conn").Scan(&dl, &wt); err != nil || dl.String != "2100-01-01 00:00:00" || wt.String != "2020-01-01 00:00:00" {
+		return fmt.Sprintf("FAIL attributes read back %q %q %v", dl.String, wt.String, err)
+	}
+	times, err := rowTimes(px, bucket, "ta")
+	if err != nil {
+		return "FAIL read: " + err.Error()
+	}
+	want := time.Date(2020, 1, 1, 0, 0, 0, 0, time.UTC).UnixNano()
+	for k, t := range times {
+		if t != want {
+			return fmt.Sprintf("FAIL the row %s written after another table was dropped carries the time %d, not the connection's write_time", k, t)
+		}
+	}
+	return "ok"
+}
